@@ -318,6 +318,7 @@ def contract():
         "COL": SpecFn(lambda ev, r, j: z3.Select(r.arr, Z(j))), "LISTLEN": SpecFn(lambda ev, y: Z(y.n) if isinstance(y, SymList) else len(y)),
         "NF": SpecFn(lambda ev: z3.If(ev.ex.ctx["N"] >= ev.ex.ctx["L"] / 2 + 1, (ev.ex.ctx["N"] + ev.ex.ctx["s"] / 2) / ev.ex.ctx["s"], 0)),
         "NFILT": SpecFn(lambda ev: ev.ex.ctx["nf"]), "DFT": SpecFn(lambda ev: ev.ex.ctx["D"]),
+        "OFFS": SpecFn(lambda ev, a: Z(a.off)), "SAME_ROOT": SpecFn(lambda ev, a: a.root == "sig" and a.step == 1),
     }
     c = Contract(
         target="torch:pytorch_stft_frame_computer",
@@ -329,14 +330,22 @@ def contract():
             "attr_any": h_attr_any,
         },
         loops={
-            0: LoopSpec(kind="for", types={"y": _fresh_symlist, "val": "real"}, convert={"y": _to_symlist}, invariant=[
+            # the repeated-reflection loop (a pad longer than the signal) is never entered in this contract's domain (N >= L, where both
+            # pads are at most N): the invariant says nothing has happened yet, which makes the body unreachable from the loop head
+            0: LoopSpec(kind="while", invariant=[
+                ("signal_untouched", "OFFS(sig) == 0 and len(sig) == N and SAME_ROOT(sig)"),
+                ("pads_untouched", "pad_left == ite(not centered, 0, ite(kaldi_shift, frame_length // 2 - frame_shift // 2, (frame_length + 1) // 2 - 1)) "
+                                   "and pad_right == max(0, total_len - sig_len) and sig_len == N"),
+                ("pads_fit", "pad_left <= N and pad_right <= N"),
+            ]),
+            1: LoopSpec(kind="for", types={"y": _fresh_symlist, "val": "real"}, convert={"y": _to_symlist}, invariant=[
                 ("range", "0 <= __zi <= NFILT()"),
                 ("half_len", "half_len == DFT() // 2 + 1 and mod == DFT() % 2"),
                 ("ylen", "LISTLEN(y) == __zi + ite(include_energy, 1, 0)"),
                 ("done", f"forall(j, 0, __zi, y[j + ite(include_energy, 1, 0)] == {V})"),
                 ("energy_kept", f"implies(include_energy, y[0] == {E0_RAW})"),
             ]),
-            1: LoopSpec(kind="while", types={"val": "real"}, invariant=[
+            2: LoopSpec(kind="while", types={"val": "real"}, invariant=[
                 ("consumed_range", "0 <= consumed <= filt_len"),
                 ("start_nonneg", "si >= 0"),
                 ("walk_bound", "ite(conj, half_len + si <= DFT(), si < DFT())"),
